@@ -139,10 +139,22 @@ def convert(execution) -> dict:
     out = []
     pending_call = None
     pending_applied = False
+    pending_log = None
+    log_idx = {d["pt"]: k for k, d in enumerate(instrs, 1) if d["kind"] == "LOG"}
     for e in execution.trace:
         n = e["ev"]
         if n == "InvStart":
-            out.append(ev("InvStart"))
+            sp = e.get("split")
+            out.append(ev("InvStart", o="small" if (sp is not None and sp[0] <= 1) else ""))
+        elif n == "LogCall":
+            k = log_idx.get(e["pt"])
+            if k is not None:
+                pending_log = ev("Log", i=k, cls="nolog")
+                out.append(pending_log)
+        elif n == "LogEmit":
+            if pending_log is not None and log_idx.get(e["pt"]) == pending_log["i"]:
+                pending_log["cls"] = "log"
+                pending_log = None
         elif n == "ApiCall":
             us = []
             for oid, act in e["updates"]:
